@@ -28,13 +28,14 @@ structure State where
   parked : Nat
   notif : Nat
   blk : Nat
+  other : Nat           -- requests other than pulls queued in the subscription mailbox
   deleted : Bool        -- DeleteEnd happened: signal sent, waiters notified, actor exited
   ended : Nat           -- consumers that terminated with an error status after the deletion
   silent : Nat          -- pinned only: stream loops that ended without a status (the RPC hangs)
 deriving DecidableEq, Repr
 
 def init : State :=
-  { backlog := 0, permit := false, q := 0, g0 := 0, gp := 0, parked := 0, notif := 0, blk := 0,
+  { backlog := 0, permit := false, q := 0, g0 := 0, gp := 0, parked := 0, notif := 0, blk := 0, other := 0,
     deleted := false, ended := 0, silent := 0 }
 
 /-- `Notify::notify_one` -/
@@ -52,29 +53,43 @@ inductive Label where
   | wake                       -- a notified consumer runs and enqueues its next pull
   | cancelParked | cancelNotified | cancelQueued | cancelGot0 | cancelGotP
   | block | unblock | cancelBlocked     -- bounded mailbox: woken consumer stuck on a full mailbox
+  | otherArrive | otherTurn             -- any non-pull request (ack, modify, stats, …) enqueued / handled
   | delete                     -- DeleteEnd
   | closed (stream pinned : Bool)       -- a queued pull finds the actor gone
   | wakeDeleted (viaSignal : Bool)      -- notified consumer after the deletion: either select branch
 deriving DecidableEq, Repr
 
-/-- `bounded` = the subscription mailbox can be full (enables the `block` labels). -/
-def step (bounded : Bool) (s : State) : Label → Option State
+/-- `bounded` = the subscription mailbox can be full (enables the `block` label — only while the
+    mailbox is non-empty, since its capacity is at least 1).
+    `renotify` = the repaired actor loop: after EVERY handled request, `notify_one` again while the
+    backlog is non-empty (spurious wake-ups are harmless: the woken consumer pulls and parks again). -/
+def step (bounded renotify : Bool) (s : State) : Label → Option State
   | .arrive => if s.deleted then none else some { s with q := s.q + 1 }
-  | .post k => if s.deleted then none else some (notifyOne { s with backlog := s.backlog + k })
-  | .requeue k => if s.deleted ∨ k = 0 then none else some (notifyOne { s with backlog := s.backlog + k })
+  | .post k =>
+    if s.deleted then none
+    else
+      let s1 := notifyOne { s with backlog := s.backlog + k }
+      some (if renotify && s1.backlog > 0 then notifyOne s1 else s1)
+  | .requeue k =>
+    if s.deleted ∨ k = 0 then none
+    else
+      let s1 := notifyOne { s with backlog := s.backlog + k }
+      some (if renotify then notifyOne s1 else s1)
   | .pullTurn m =>
     if s.deleted ∨ s.q = 0 ∨ m = 0 then none
     else
       let n := min s.backlog m
       let s1 := { s with q := s.q - 1, backlog := s.backlog - n,
                          g0 := if n = 0 then s.g0 + 1 else s.g0, gp := if n = 0 then s.gp else s.gp + 1 }
-      some (if s1.backlog > 0 then notifyOne s1 else s1)
+      let s2 := if s1.backlog > 0 then notifyOne s1 else s1
+      some (if renotify && s2.backlog > 0 then notifyOne s2 else s2)
   | .pullZombie m =>
     if s.deleted ∨ s.q = 0 ∨ m = 0 then none
     else
       let n := min s.backlog m
       let s1 := { s with q := s.q - 1, backlog := s.backlog - n }
-      some (if s1.backlog > 0 then notifyOne s1 else s1)
+      let s2 := if s1.backlog > 0 then notifyOne s1 else s1
+      some (if renotify && s2.backlog > 0 then notifyOne s2 else s2)
   | .ret again =>
     if s.gp = 0 then none
     else if again then some { s with gp := s.gp - 1, q := s.q + 1 } else some { s with gp := s.gp - 1 }
@@ -89,7 +104,15 @@ def step (bounded : Bool) (s : State) : Label → Option State
   | .cancelQueued => if s.q = 0 then none else some s          -- the request stays queued
   | .cancelGot0 => if s.g0 = 0 then none else some { s with g0 := s.g0 - 1 }
   | .cancelGotP => if s.gp = 0 then none else some { s with gp := s.gp - 1 }
-  | .block => if !bounded ∨ s.notif = 0 ∨ s.deleted then none else some { s with notif := s.notif - 1, blk := s.blk + 1 }
+  | .block =>
+    if !bounded ∨ s.notif = 0 ∨ s.deleted ∨ s.q + s.other = 0 then none
+    else some { s with notif := s.notif - 1, blk := s.blk + 1 }
+  | .otherArrive => if s.deleted then none else some { s with other := s.other + 1 }
+  | .otherTurn =>
+    if s.other = 0 then none
+    else
+      let s1 := { s with other := s.other - 1 }
+      some (if renotify && !s.deleted && s1.backlog > 0 then notifyOne s1 else s1)
   | .unblock => if s.blk = 0 then none else some { s with blk := s.blk - 1, q := s.q + 1 }
   | .cancelBlocked => if s.blk = 0 then none else some { s with blk := s.blk - 1 }
   | .delete =>
@@ -104,13 +127,13 @@ def step (bounded : Bool) (s : State) : Label → Option State
     else if viaSignal then some { s with notif := s.notif - 1, q := s.q + 1 }
     else some { s with notif := s.notif - 1, ended := s.ended + 1 }
 
-def run (bounded : Bool) : State → List Label → Option State
+def run (bounded renotify : Bool) : State → List Label → Option State
   | s, [] => some s
-  | s, l :: ls => match step bounded s l with
-    | some s' => run bounded s' ls
+  | s, l :: ls => match step bounded renotify s l with
+    | some s' => run bounded renotify s' ls
     | none => none
 
 /-- No consumer-side or actor-side internal step is pending: every consumer is parked or gone. -/
-def Quiescent (s : State) : Prop := s.q = 0 ∧ s.g0 = 0 ∧ s.gp = 0 ∧ s.notif = 0 ∧ s.blk = 0
+def Quiescent (s : State) : Prop := s.q = 0 ∧ s.g0 = 0 ∧ s.gp = 0 ∧ s.notif = 0 ∧ s.blk = 0 ∧ s.other = 0
 
 end Deltio.P2
